@@ -42,6 +42,9 @@ TARGETED = [
     "type X = ", "type X[T = 1", "def f[T(): pass", "class A[]: pass", "type = = 1",
     "  x = 1", "if a:\n  b\n c", "if a:\n    b\n  c\n", "def f():\n\tx\n        y\n   z", "x = 1\n  y = 2", "if a:\nb",
     "f!(a, (b]", "f!((]", "f!(a, [1,\n   2)", "g!((x,\n y]", "h!(a,\n b,\n {c)", "r = k!([\n\n 1}\n)", "$(echo @(a,\n b]))", "x = [1,\n 2)", "x = {1:\n 2]", "f(a,\n b]", "$(ls", "$[ls )", "![ls", "${a", "$(echo @(a b))", "@(a)", "x = $", "x = $ a", "with! a\n  b", "with a as $: pass", "a && = b", "a || ", "p'a' = 1", "x = `a", "echo 'a", "x??? ", "$(ls) = 1", "for $(a) in b: pass", "del $X?",
+    # a reported node that spans lines and ends further right than its first line is long
+    "d = {1: 2, f(a,\n                    bbbbbbbb)}", "{'k': v, (x,\n              yyyyyyyyyyyy)\n}", "x = {a: 1, [p,\n            qqqqqqqqqqqqqqq]}", "f(k=1, (a,\n                bbbbbbbbbbbb))", "x = [1, (a,\n               bbbbbbbbbbbbbb) 2]",
+    "(a,\n              bbbbbbbbbbbbbbbb) = 1 = 2 +", "del (a,\n           f(bbbbbbbbbbbbbbbbbb))", "for (a,\n     f(bbbbbbbbbbbbbbbbbbbbbb)) in x: pass", "with a as (b,\n   cccccccccccccccccccc.d()): pass",
     # spans of hundreds of lines: the reported start lies far above the last token read
     "f(\n" + " a,\n" * 300 + ") = 1", "x = [\n" + " 1,\n" * 700 + " 2 3]", "y = 0\nfoo(a, b for b in\n" + " c,\n" * 320 + " d)\nz = 1", "v = b'''\n" + "line\n" * 400 + "é'''\n", "del (\n" + " k,\n" * 290 + " 1)",
     "{\n" + " 'a': 1,\n" * 350 + " **b: 2}", "def f(\n" + " a,\n" * 300 + " a=1, b): pass", "with (\n" + " m as n,\n" * 280 + " p as 1): pass",
